@@ -31,7 +31,7 @@ INVS = ["OwnResponse", "NotBroken", "ServerAlive", "NoOrphanWait", "Boundary", "
 
 def consts(max_calls, max_ticks, ver=False, fix=True):
     return {"MaxCalls": max_calls, "MaxTicks": max_ticks, "VerMismatch": ver, "FixStray": fix, "FixInitChk": fix,
-            "FixDrain": fix, "FixBadIn": fix, "LogsBeforeRaise": LOGS_BEFORE_RAISE}
+            "FixDrain": fix, "FixBadIn": fix, "FixBadValue": fix, "LogsBeforeRaise": LOGS_BEFORE_RAISE}
 
 
 def enumerate_scripts(ctx: Ctx, wd, max_calls: int, max_ticks: int, ver: bool, name: str):
